@@ -113,28 +113,38 @@ def runStep (k : St → Ret × St) : Step → Ret × St
   | .done r => r
   | .next s => k s
 
+theorem runStep_ite (k : St → Ret × St) (c : Prop) [Decidable c] (a b : Step) :
+    runStep k (if c then a else b) = if c then runStep k a else runStep k b := by
+  split <;> rfl
+
 theorem lzma2Loop_succ (f : Nat) (s : St) : lzma2Loop (f + 1) s = runStep (lzma2Loop f) (l2Step s) := by
   rw [lzma2Loop]
   unfold l2Step
   by_cases hg : (!(s.inPos < s.inp.size || s.l2.seq == .lzma)) = true
   · rw [if_pos hg, if_pos hg]; rfl
   · rw [if_neg hg, if_neg hg]
+    simp only [curByte]
+    generalize (if hlt : s.inPos < s.inp.size then s.inp[s.inPos] else 0).toNat = byte
     cases hq : s.l2.seq with
     | control =>
-      simp only [l2Byte, curByte, apply_ite (runStep (lzma2Loop f))]
-      rfl
+      simp only [l2Byte]
+      split
+      · rfl
+      · split
+        · rfl
+        · split <;> rfl
     | uncompressed1 => rfl
     | uncompressed2 => rfl
     | compressed0 => rfl
     | compressed1 => rfl
     | properties =>
-      simp only [l2Byte, curByte]
-      split <;> rename_i h <;> simp only [h] <;> rfl
+      simp only [l2Byte]
+      split <;> rfl
     | lzma =>
-      simp only [l2Lzma, apply_ite (runStep (lzma2Loop f))]
+      simp only [l2Lzma, runStep_ite]
       rfl
     | copy =>
-      simp only [l2Copy, apply_ite (runStep (lzma2Loop f))]
+      simp only [l2Copy, runStep_ite]
       rfl
 
 end XzVerif.Lzma2
